@@ -14,4 +14,7 @@ theorem holds_routed (r : Role) (s : State) (h : Reachable Facts.grpcMux r s) (t
 theorem holds_main_survives (r : Role) (s : State) (h : Reachable Facts.grpcMux r s) : s.mainDead = false :=
   main_survives _ facts_good r s h
 
+theorem holds_reaccept_usable (earlierClosed : Bool) : GrpcMux.reacceptUsable Facts.grpcMuxListener earlierClosed = true :=
+  Props.C08.reaccept_usable _ (by decide) earlierClosed
+
 end GoPlugin.Instance.C08
